@@ -13,7 +13,7 @@ import os
 import random
 from multiprocessing import Pool
 
-from ..common import Run, EMBS, E0, E1, E2, E3, Emb, close, repo_import, seed
+from ..common import Run, EMBS, E0, E1, E2, E3, E4, Emb, close, repo_import, seed
 from ..tlc import run_sharded, run_tlc, write_cfg, MachineryError, SPEC
 
 PROPS = ("C01", "C05", "C06")
@@ -380,18 +380,19 @@ def check(prop: str, tier: str, run: Run, replay_case=None):
         cases = res.cases
         run.cov["exhaustive"] = True
         service_level = CFG[name]["NZones"] > 1
+        embs = embs3 + [E4.name] if CFG[name]["LatentCPs"] else embs3      # latent streams also at 1500 degrees
         if service_level:
             # full service is ~40 ms per call: deterministic sample, all multi-zone shapes kept in rotation
             from ..common import sample
-            jobs = [(c, embs3[i % 3]) for i, c in enumerate(sample(cases, 1500 if tier == "quick" else 12000, 1))]
+            jobs = [(c, embs[i % len(embs)]) for i, c in enumerate(sample(cases, 1500 if tier == "quick" else 12000, 1))]
             fn, init = replay_service, _init_service
         else:
             if name == "quickW":
                 jobs = [(c, (E0.name, E1.name)[(i + seed()) % 2]) for i, c in enumerate(cases)]
             elif tier == "quick":
-                jobs = [(c, embs3[(i + seed()) % 3]) for i, c in enumerate(cases)]
+                jobs = [(c, embs[(i + seed()) % len(embs)]) for i, c in enumerate(cases)]
             else:
-                jobs = [(c, e) for c in cases for e in embs3]
+                jobs = [(c, e) for c in cases for e in embs]
             fn, init = replay_component, _init
         with Pool(16, initializer=init) as pool:
             for (case, ename), (out, flags) in zip(jobs, pool.imap(fn, jobs, chunksize=64)):
